@@ -127,6 +127,9 @@ const (
 	// maxCandidates bounds the body solutions tried for a rule whose head
 	// contains function expressions.
 	maxCandidates = 10000
+	// maxSearchSteps bounds the number of goals visited while looking for
+	// alternative proofs around derivation cycles.
+	maxSearchSteps = 20000
 )
 
 // ErrNoProof indicates that no proof was found for the goal. The goal may
@@ -186,12 +189,15 @@ type explainer struct {
 	cutLog []uint64
 	// condFail remembers, per goal, sets of on-stack goals under which the goal has no proof.
 	condFail map[uint64][][]uint64
+	// steps counts the goals visited.
+	steps int
 }
 
 func (e *explainer) explain(goal ast.Atom, depth int) []*ProofNode {
 	if depth > e.opts.MaxDepth {
 		return []*ProofNode{{Fact: goal, Partial: true, ID: partialID(goal)}}
 	}
+	e.steps++
 	h := goal.Hash()
 	if e.onStack[h] {
 		e.cutLog = append(e.cutLog, h)
@@ -290,7 +296,9 @@ func (e *explainer) explain(goal ast.Atom, depth int) []*ProofNode {
 	// The caller depends on the same cuts.
 	e.cutLog = append(e.cutLog[:cutLogStart], deps...)
 	switch {
-	case len(proofs) > 0 || len(deps) == 0:
+	case len(proofs) > 0 || len(deps) == 0 || e.steps > maxSearchSteps:
+		// Beyond the step bound failures are remembered unconditionally: the
+		// search stays bounded at the price of possibly missing a proof.
 		e.cache[h] = proofs
 	default:
 		// A failure that met the cycle cut is only a failure while the cut
@@ -354,7 +362,22 @@ func (e *explainer) solveBody(premises []ast.Term, uf unionfind.UnionFind, depth
 
 func (e *explainer) solveBodyRec(premises []ast.Term, uf unionfind.UnionFind, depth, need int, accAtoms []ast.Atom, accProofs []*ProofNode, partial bool) []bodySolution {
 	if len(premises) == 0 {
-		return []bodySolution{{subst: uf, premiseAtoms: accAtoms, subProofs: accProofs, partial: partial}}
+		// All body literals hold in the store under uf. Only now explain the
+		// premise facts: explaining them earlier would explore facts that a
+		// later literal of the body rules out.
+		proofs := make([]*ProofNode, len(accProofs))
+		for i, sub := range accProofs {
+			if sub == nil {
+				subProofs := e.explain(accAtoms[i], depth+1)
+				if len(subProofs) == 0 {
+					return nil
+				}
+				sub = subProofs[0]
+				partial = partial || sub.Partial
+			}
+			proofs[i] = sub
+		}
+		return []bodySolution{{subst: uf, premiseAtoms: accAtoms, subProofs: proofs, partial: partial}}
 	}
 	if need <= 0 {
 		return nil
@@ -419,15 +442,10 @@ func (e *explainer) solveAtomPremise(pAtom ast.Atom, rest []ast.Term, uf unionfi
 		if err != nil {
 			return nil
 		}
-		subProofs := e.explain(fact, depth+1)
-		if len(subProofs) == 0 {
-			return nil
-		}
-		sub := subProofs[0]
+		// The sub-proof is filled in once the whole body has a solution.
 		newAtoms := append(append([]ast.Atom(nil), accAtoms...), fact)
-		newProofs := append(append([]*ProofNode(nil), accProofs...), sub)
-		newPartial := partial || sub.Partial
-		tail := e.solveBodyRec(rest, extended, depth, need-len(results), newAtoms, newProofs, newPartial)
+		newProofs := append(append([]*ProofNode(nil), accProofs...), nil)
+		tail := e.solveBodyRec(rest, extended, depth, need-len(results), newAtoms, newProofs, partial)
 		results = append(results, tail...)
 		return nil
 	})
